@@ -2100,3 +2100,21 @@ m("C08", "identifier-prefix-unmangled", C,
 m("C12", "allocator-without-arguments", "utils.py",
   "            inst = cls.__new__(new, *exc.args)",
   "            inst = cls.__new__(new)")
+
+for _p in ("C10", "C07"):
+    m(_p, "translate-offered-none", C,
+      '''    if target is not None:
+        target = translate(
+            msgid,
+            default=default,
+            domain=__i18n_domain,
+            context=__i18n_context,
+            target_language=target_language
+        )""")''',
+      '''    target = translate(
+        msgid,
+        default=default,
+        domain=__i18n_domain,
+        context=__i18n_context,
+        target_language=target_language
+    )""")''')
